@@ -727,6 +727,16 @@ def evaluate_smt_formula(
             return Some(ThreeValuedTruth.false())
 
     def fallback(_) -> Maybe[ThreeValuedTruth]:
+        # As in the fast path above, the formula cannot be decided yet if one of its
+        # variables is instantiated with an open tree (whose string contains
+        # nonterminal placeholders).
+        if any(
+            assignments[var][1].is_open()
+            for var in formula.free_variables()
+            if var in assignments
+        ):
+            return Some(ThreeValuedTruth.unknown())
+
         return Some(
             is_valid(
                 z3.substitute(
